@@ -451,7 +451,7 @@ func ruleW2(c *Ctx, id string) {
 			// arguments: same name (param), and for Add the same inum param and written offset
 			nameOK := false
 			for _, a := range callCommon(call).Args[1:] {
-				if pm, isP := stripConv(a).(*ssa.Parameter); isP && pm.Name() == "name" {
+				if pm, isP := stripConv(a).(*ssa.Parameter); isP && pm == fn.Params[len(fn.Params)-1] {
 					nameOK = true
 				}
 			}
@@ -459,7 +459,7 @@ func ruleW2(c *Ctx, id string) {
 			if upd == add {
 				a := callCommon(call).Args
 				okArgs := len(a) == 4 && stripConv(a[3]) == offv
-				if pm, isP := stripConv(a[2]).(*ssa.Parameter); !isP || pm.Name() != "inum" {
+				if pm, isP := stripConv(a[2]).(*ssa.Parameter); !isP || len(fn.Params) < 3 || pm != fn.Params[2] {
 					okArgs = false
 				}
 				// the same inum must be what the directory write received
@@ -494,10 +494,8 @@ func ruleW2(c *Ctx, id string) {
 		// per-entry constant added to the dircount accumulator: Convert(c + len(name)) added to the phi compared with param dircount
 		var dirc int64 = -1
 		var dcp *ssa.Parameter
-		for _, p := range apply.Params {
-			if p.Name() == "dircount" {
-				dcp = p
-			}
+		if len(apply.Params) > 3 {
+			dcp = apply.Params[3] // Apply(dip, op, start, dircount, maxcount, f)
 		}
 		for _, br := range branches(apply) {
 			if br.Cond.X == nil || br.Cond.Y == nil || dcp == nil || stripConv(br.Cond.Y) != ssa.Value(dcp) {
